@@ -639,34 +639,37 @@ class World:
 
     def s_tight(self):
         """Connectives on a manager whose documented limit `max_nodes`
-        leaves room for only a few more nodes: each either is refused
-        with "full" (and everything stays as it was, up to unreferenced
-        nodes) or returns the right function."""
+        leaves room for only a few more nodes. For each connective the
+        room grows from 0 upwards until the result fits, so that the
+        refusal "full" is met at every node creation of the computation
+        in turn: each call either is refused (and everything stays as it
+        was, up to unreferenced nodes) or returns the right function."""
         if self.reordering:
             return ('tight-skip',)
         old = self.raw.max_nodes
         log = []
-        for _ in range(4):
+        for _ in range(3):
             sym = self.rng.choice(BIN_SYMS)
             a, b = self.pick(), self.pick()
-            top = max(self.raw._succ)
-            room = self.rng.randint(1, 4)
-            self.raw.max_nodes = self.rng.choice(
-                [self.raw._min_free + room, top + 1 + room])
-            try:
-                h = self.bdd.apply(sym, a.h, b.h)
-            except RuntimeError as e:
-                if 'full' not in str(e):
-                    raise
-                self.ctx.count('refused_for_lack_of_room')
-                log.append((sym, 'full'))
-                continue
-            finally:
-                self.raw.max_nodes = old
             want = getattr(self.sp, BINOPS[sym])(a.tt, b.tt)
-            self.ctx.count('computed_with_little_room')
-            self.accept('apply', h, want, strict=True)
-            log.append((sym, 'computed'))
+            above_all = self.rng.random() < 0.5
+            for room in range(0, 9):
+                base = (max(self.raw._succ) + 1 if above_all
+                        else self.raw._min_free)
+                self.raw.max_nodes = base + room
+                try:
+                    h = self.bdd.apply(sym, a.h, b.h)
+                except RuntimeError as e:
+                    if 'full' not in str(e):
+                        raise
+                    self.ctx.count('refused_for_lack_of_room')
+                    continue
+                finally:
+                    self.raw.max_nodes = old
+                self.ctx.count('computed_with_little_room')
+                self.accept('apply', h, want, strict=True)
+                log.append((sym, room))
+                break
         return ('tight', log)
 
     def s_rearm(self):
